@@ -1475,6 +1475,12 @@ impl Gen {
         }
         let k = if self.cfg.onlych == 2 { nch - 1 - t } else { t };
         let mut plan = Proc { tx: "done".into(), ts: 50, fault: -1, ..Default::default() };
+        if phase == 3 && t % 5 == 4 {
+            // every fifth channel: an (unanswered) OTAA join from the state in which this channel is the only one the
+            // mask enables - join requests go out on the join channels whatever the mask of the ended session says;
+            // the walk then goes on from a fresh ABP session (plan and mask stay as they are)
+            return Some(Op::JoinOtaa { appkey: self.cfg.appkey, deveui: [1, 2, 3, 4, 5, 6, 7, 8], appeui: [8, 7, 6, 5, 4, 3, 2, 1], draws: vec![], plan });
+        }
         if phase == 0 {
             let mut fopts: Vec<u8> = vec![];
             if fixed {
